@@ -546,7 +546,5 @@ theorem next_into_fin (s : LState) (a : Ans) (hf : finPc s.pc = false) (hf' : fi
     | (exfalso; rw [addRow_pc] at hf'; rw [show finPc _ = false from rfl] at hf'; cases hf'; done)
     | (exfalso; rw [secondItem_notfin s _ _ _ hpc] at hf'; cases hf'; done)
     | (exfalso; rw [show finPc _ = finPc s.pc from rfl, hf] at hf'; cases hf'; done)
-    | skip
-  all_goals (trace_state; sorry)
 
 end SyneTune.Tuner
